@@ -105,8 +105,11 @@ async fn scenario(rng: &mut StdRng, sc: usize) -> Vec<Value> {
 	let ctx = Arc::new(Ctx { tracer: tracer.clone(), gates: Mutex::new(HashMap::new()) });
 	let methods: jsonrpsee_server::Methods = module(ctx.clone()).into();
 	let use_server = sc % 3 == 2;
-	tracer.ev(json!({"ev": "Reset", "sc": sc, "limit": 10, "rig": if use_server { "Server::start" } else { "tower" }}));
-	let cfg = RigCfg { buf_cap: 1, max_conns: 10, ..Default::default() };
+	tracer.ev(json!({"ev": "Reset", "sc": sc, "limit": 10, "rig": if use_server { "Server::start" } else { "tower" }, "ping": sc % 4 == 1}));
+	// a quarter of the scenarios run with WebSocket pings every few milliseconds (the peers answer them while they read): the
+	// graceful drain then sees Pong frames while it waits for the handlers
+	let pinging = sc % 4 == 1;
+	let cfg = RigCfg { buf_cap: 1, max_conns: 10, ping_ms: if pinging { Some((3, 60_000)) } else { None }, ..Default::default() };
 	let (mut mode, handle) = if use_server {
 		let server = jsonrpsee_server::Server::builder().set_config(cfg.server_config()).build("127.0.0.1:0").await.expect("bind loopback");
 		let addr = server.local_addr().unwrap();
@@ -146,7 +149,7 @@ async fn scenario(rng: &mut StdRng, sc: usize) -> Vec<Value> {
 		let (tx, mut rx) = client.into_builder().finish();
 		ws_tx.insert(c, tx);
 		// some peers withhold reading for a while: responses stay "answered but unsent" longer
-		let hold = if rng.random_bool(0.3) { rng.random_range(1..6u64) } else { 0 };
+		let hold = if !pinging && rng.random_bool(0.3) { rng.random_range(1..6u64) } else { 0 };
 		let t3 = tracer.clone();
 		readers.push(tokio::spawn(async move {
 			if hold > 0 {
@@ -261,6 +264,10 @@ async fn scenario(rng: &mut StdRng, sc: usize) -> Vec<Value> {
 				if rng.random_bool(0.5) {
 					let r = handle.stop();
 					tracer.ev(json!({"ev": "StopAgain", "ok": r.is_ok()}));
+				}
+				if pinging {
+					// let a few ping/pong rounds pass while the connections drain
+					tokio::time::sleep(Duration::from_millis(15)).await;
 				}
 			}
 		}
